@@ -1,4 +1,5 @@
 import RedisEmu.Exec
+import RedisEmu.Props.C06
 import Mathlib.Tactic.SplitIfs
 /-
   C05 — set commands and set algebra. Theorems about `RedisEmu.Cmds` (family `set`).
@@ -367,5 +368,654 @@ theorem sremAll_count (ms : List Bytes) : ∀ (s : List Bytes) (n : Nat),
         have hp : 0 < s.length := List.length_pos_of_mem hm
         omega
       · exact ih s n
+
+
+set_option linter.unusedSectionVars false
+
+/-! ### no member twice, no field twice — in every stored set and hash, after every command -/
+
+/-- a set without a repeated member, a hash without a repeated field -/
+def Val.distinct : Val → Prop
+  | .set s => s.Nodup
+  | .hash h => (h.map (·.1)).Nodup
+  | _ => True
+
+/-- every stored set / hash is duplicate-free -/
+structure Db.Distinct (db : Db) : Prop where
+  all : ∀ p ∈ db.keys, p.2.val.distinct
+
+theorem distinct_init : ({} : Db).Distinct := ⟨by intro p hp; simp at hp⟩
+
+theorem distinct_put (db : Db) (k : Bytes) (v : Val) (x : Option Int) (h : db.Distinct) (hv : v.distinct) :
+    (db.put k v x).Distinct := by
+  refine ⟨fun p hp => ?_⟩
+  rcases mem_ainsert k _ db.keys p hp with e | hm
+  · subst e; exact hv
+  · exact h.all p hm
+
+theorem distinct_poke (db : Db) (k : Bytes) (e : Entry) (h : db.Distinct) (hv : e.val.distinct) :
+    (db.poke k e).Distinct := by
+  refine ⟨fun p hp => ?_⟩
+  rcases mem_ainsert k _ db.keys p hp with e' | hm
+  · subst e'; exact hv
+  · exact h.all p hm
+
+theorem distinct_del (db : Db) (k : Bytes) (h : db.Distinct) : (db.del k).Distinct := by
+  unfold Db.del
+  split
+  · exact ⟨fun p hp => h.all p (mem_aerase k db.keys p hp)⟩
+  · exact h
+
+theorem distinct_setDirty (db : Db) (h : db.Distinct) : db.setDirty.Distinct := ⟨h.all⟩
+
+theorem distinct_dirtyUnlessQuirk (c : Ctx) (db : Db) (h : db.Distinct) : (dirtyUnlessQuirk c db).Distinct := by
+  unfold dirtyUnlessQuirk; split
+  · exact h
+  · exact distinct_setDirty _ h
+
+theorem distinct_bump (c : Ctx) (db : Db) (e : Entry) (h : db.Distinct) : (bump c db e).1.Distinct := by
+  unfold bump; split
+  · exact h
+  · exact ⟨h.all⟩
+
+theorem distinct_update (db : Db) (k : Bytes) (e : Entry) (v : Val) (h : db.Distinct) (hv : v.distinct) :
+    (db.update k e v).Distinct := by
+  unfold Db.update
+  simp only
+  have key : ∀ (p : Prop) [Decidable p], (if p then (db.del k).setDirty else (db.poke k { e with val := v }).setDirty).Distinct := by
+    intro p _
+    split
+    · exact distinct_setDirty _ (distinct_del db k h)
+    · exact distinct_setDirty _ (distinct_poke db k _ h hv)
+  exact key _
+
+theorem distinct_upd (c : Ctx) (db : Db) (k : Bytes) (e : Entry) (v : Val) (h : db.Distinct) (hv : v.distinct) :
+    (upd c db k e v).Distinct := by
+  unfold upd
+  exact distinct_update _ _ _ _ (distinct_bump c db e h) hv
+
+theorem live_distinct {db : Db} {now : Int} {k : Bytes} {e : Entry} (hi : db.Distinct) (h : db.live now k = some e) :
+    e.val.distinct :=
+  hi.all (k, e) (mem_of_alookup k db.keys e (live_some_raw h).1)
+
+theorem srcLookup_distinct {c : Ctx} {db : Db} {k : Bytes} {e : Entry} (hi : db.Distinct) (h : srcLookup c db k = some e) :
+    e.val.distinct := by
+  unfold srcLookup at h
+  split at h
+  · exact hi.all (k, e) (mem_of_alookup k db.keys e h)
+  · exact live_distinct hi h
+
+theorem setOf_distinct {c : Ctx} {db : Db} {k : Bytes} {e : Entry} {s : List Bytes} (hi : db.Distinct)
+    (h : setOf c db k = .ok (some (e, s))) : s.Nodup := by
+  unfold setOf at h
+  split at h
+  · rename_i e' hl
+    split at h
+    · rename_i s' hv
+      cases h
+      have := live_distinct hi hl
+      rw [hv] at this
+      exact this
+    · cases h
+  · cases h
+
+theorem hashOf_distinct {c : Ctx} {db : Db} {k : Bytes} {e : Entry} {hh : List (Bytes × Bytes)} (hi : db.Distinct)
+    (h : hashOf c db k = .ok (some (e, hh))) : (hh.map (·.1)).Nodup := by
+  unfold hashOf at h
+  split at h
+  · rename_i e' hl
+    split at h
+    · rename_i s' hv
+      cases h
+      have := live_distinct hi hl
+      rw [hv] at this
+      exact this
+    · cases h
+  · cases h
+
+theorem dedup_nodup (l : List Bytes) : (dedup l).Nodup := by
+  induction l with
+  | nil => simp [dedup]
+  | cons x r ih =>
+    unfold dedup
+    rw [List.nodup_cons]
+    refine ⟨?_, ih.filter _⟩
+    intro hm
+    have := (List.mem_filter.mp hm).2
+    simp at this
+
+theorem inter_go_nodup (c : Ctx) (db : Db) (rest : List Bytes) : ∀ (d s : List Bytes), d.Nodup →
+    setAlgebra.go c db rest d = some s → s.Nodup := by
+  induction rest with
+  | nil => intro d s hd h; simp only [setAlgebra.go] at h; cases h; exact hd
+  | cons k r ih =>
+    intro d s hd h
+    unfold setAlgebra.go at h
+    split at h
+    · cases h
+    · cases h; exact List.nodup_nil
+    · exact ih _ s (hd.filter _) h
+
+theorem fold_nodup_diff (c : Ctx) (db : Db) (rest : List Bytes) : ∀ (acc : Option (List Bytes)) (s : List Bytes),
+    (∀ d, acc = some d → d.Nodup) →
+    rest.foldl (fun acc k => match acc with
+        | none => none
+        | some d => match setOperand c db k with
+          | none => none
+          | some s => some (d.filter (!s.contains ·))) acc = some s → s.Nodup := by
+  induction rest with
+  | nil => intro acc s ha h; exact ha s h
+  | cons k r ih =>
+    intro acc s ha h
+    simp only [List.foldl_cons] at h
+    refine ih _ s ?_ h
+    intro d hd
+    split at hd
+    · cases hd
+    · rename_i d0
+      split at hd
+      · cases hd
+      · cases hd; exact (ha d0 rfl).filter _
+
+theorem fold_nodup_union (c : Ctx) (db : Db) (rest : List Bytes) : ∀ (acc : Option (List Bytes)) (s : List Bytes),
+    (∀ d, acc = some d → d.Nodup) →
+    rest.foldl (fun acc k => match acc with
+        | none => none
+        | some d => match setOperand c db k with
+          | none => none
+          | some s => some (dedup (d ++ s))) acc = some s → s.Nodup := by
+  induction rest with
+  | nil => intro acc s ha h; exact ha s h
+  | cons k r ih =>
+    intro acc s ha h
+    simp only [List.foldl_cons] at h
+    refine ih _ s ?_ h
+    intro d hd
+    split at hd
+    · cases hd
+    · split at hd
+      · cases hd
+      · cases hd; exact dedup_nodup _
+
+/-- the result of SINTER / SUNION / SDIFF has no repeated member -/
+theorem setAlgebra_nodup (c : Ctx) (db : Db) (op : SetOp) (f : Bytes) (r s : List Bytes) (hi : db.Distinct)
+    (h : setAlgebra c db op f r = some s) : s.Nodup := by
+  unfold setAlgebra at h
+  split at h
+  · cases h
+  · rename_i firstInfo hf
+    have hm : (match firstInfo with | some (_, s) => s | none => []).Nodup := by
+      cases firstInfo with
+      | none => exact List.nodup_nil
+      | some p => obtain ⟨e, m⟩ := p; exact setOf_distinct hi hf
+    dsimp only at h
+    split at h
+    · split at h
+      · cases h; exact List.nodup_nil
+      · exact fold_nodup_diff c db r _ s (fun d hd => by cases hd; exact hm) h
+    · exact fold_nodup_union c db r _ s (fun d hd => by cases hd; exact hm) h
+    · split at h
+      · cases h; exact List.nodup_nil
+      · exact inter_go_nodup c db r _ s hm h
+
+theorem hsetAll_fields (nx : Bool) (fvs : List (Bytes × Bytes)) : ∀ (h : List (Bytes × Bytes)) (n : Nat),
+    (h.map (·.1)).Nodup → ((hsetAll nx fvs h n).1.map (·.1)).Nodup := by
+  induction fvs with
+  | nil => intro h n hu; exact hu
+  | cons p r ih =>
+    intro h n hu
+    obtain ⟨f, v⟩ := p
+    unfold hsetAll
+    split
+    · split
+      · exact ih h n hu
+      · exact ih _ _ (ainsert_keys_nodup f v h hu)
+    · exact ih _ _ (ainsert_keys_nodup f v h hu)
+
+theorem hdelAll_fields (fs : List Bytes) : ∀ (h : List (Bytes × Bytes)) (n : Nat),
+    (h.map (·.1)).Nodup → ((hdelAll fs h n).1.map (·.1)).Nodup := by
+  induction fs with
+  | nil => intro h n hu; exact hu
+  | cons g r ih =>
+    intro h n hu
+    unfold hdelAll
+    split
+    · exact hu
+    · split
+      · exact ih _ _ (aerase_keys_nodup g h hu)
+      · exact ih _ _ hu
+
+theorem saddAll_nodup' {ms s r : List Bytes} {n k : Nat} (h : saddAll ms s n = (r, k)) (hs : s.Nodup) : r.Nodup := by
+  have := saddAll_nodup ms s n hs; rw [h] at this; exact this
+theorem sremAll_nodup' {ms s r : List Bytes} {n k : Nat} (h : sremAll ms s n = (r, k)) (hs : s.Nodup) : r.Nodup := by
+  have := sremAll_nodup ms s n hs; rw [h] at this; exact this
+theorem hsetAll_fields' {nx : Bool} {fvs hh r : List (Bytes × Bytes)} {n k : Nat} (h : hsetAll nx fvs hh n = (r, k))
+    (hs : (hh.map (·.1)).Nodup) : (r.map (·.1)).Nodup := by
+  have := hsetAll_fields nx fvs hh n hs; rw [h] at this; exact this
+theorem hdelAll_fields' {fs : List Bytes} {hh r : List (Bytes × Bytes)} {n k : Nat} (h : hdelAll fs hh n = (r, k))
+    (hs : (hh.map (·.1)).Nodup) : (r.map (·.1)).Nodup := by
+  have := hdelAll_fields fs hh n hs; rw [h] at this; exact this
+theorem nodup_snoc {l : List Bytes} {m : Bytes} (hl : l.Nodup) (hm : ¬ (l.contains m) = true) : (l ++ [m]).Nodup := by
+  have hm' : m ∉ l := by simpa using hm
+  rw [List.nodup_append]
+  refine ⟨hl, by simp, ?_⟩
+  intro a ha b hb
+  simp at hb
+  subst hb
+  intro e
+  subst e
+  exact hm' ha
+
+theorem distinct_poke_bump {c : Ctx} {db db1 : Db} {e e1 : Entry} (k : Bytes) (e' : Entry) (hi : db.Distinct)
+    (hb : bump c db e = (db1, e1)) (hv : e'.val.distinct) : (db1.poke k e').Distinct := by
+  have := distinct_bump c db e hi
+  rw [hb] at this
+  exact distinct_poke _ _ _ this hv
+
+attribute [local irreducible] bump
+
+theorem setKey_distinct (c : Ctx) (db : Db) (k v : Bytes) (o : SetOpts) (a b : Bool) (h : db.Distinct) :
+    (setKey c db k v o a b).1.Distinct := by
+  unfold setKey
+  repeat' (first | assumption | trivial | (refine distinct_put _ _ _ _ ?_ ?_) | split | dsimp only)
+
+theorem putAll_distinct (kvs : List (Bytes × Bytes)) : ∀ (db : Db), db.Distinct → (putAll db kvs).Distinct := by
+  induction kvs with
+  | nil => intro db h; exact h
+  | cons p r ih =>
+    intro db h
+    obtain ⟨k, v⟩ := p
+    unfold putAll
+    exact ih _ (distinct_put _ _ _ _ h trivial)
+
+macro "keepd" : tactic => `(tactic| (repeat' (first
+  | assumption
+  | trivial
+  | (exact setKey_distinct _ _ _ _ _ _ _ (by assumption))
+  | (exact putAll_distinct _ _ (by assumption))
+  | (refine distinct_put _ _ _ _ ?_ ?_)
+  | (refine distinct_setDirty _ ?_)
+  | (refine distinct_del _ _ ?_)
+  | (refine distinct_upd _ _ _ _ _ ?_ ?_)
+  | (refine distinct_dirtyUnlessQuirk _ _ ?_)
+  | (refine distinct_poke _ _ _ (distinct_bump _ _ _ ?_) ?_)
+  | (exact live_distinct (by assumption) (by assumption))
+  | (exact srcLookup_distinct (by assumption) (by assumption))
+  | (simp only [bump_val]; exact live_distinct (by assumption) (by assumption))
+  | (refine distinct_poke_bump _ _ (by assumption) (by assumption) ?_)
+  | (rw [bump_val' (by assumption)]; exact live_distinct (by assumption) (by assumption))
+  | (exact saddAll_nodup' (by assumption) (setOf_distinct (by assumption) (by assumption)))
+  | (exact saddAll_nodup' (by assumption) List.nodup_nil)
+  | (exact sremAll_nodup' (by assumption) (setOf_distinct (by assumption) (by assumption)))
+  | (exact hsetAll_fields' (by assumption) (hashOf_distinct (by assumption) (by assumption)))
+  | (exact hsetAll_fields' (by assumption) List.nodup_nil)
+  | (exact hdelAll_fields' (by assumption) (hashOf_distinct (by assumption) (by assumption)))
+  | (exact (setOf_distinct (by assumption) (by assumption)).erase _)
+  | (exact nodup_snoc (setOf_distinct (by assumption) (by assumption)) (by assumption))
+  | (exact saddAll_nodup _ _ _ (setOf_distinct (by assumption) (by assumption)))
+  | (exact saddAll_nodup _ _ _ List.nodup_nil)
+  | (exact sremAll_nodup _ _ _ (setOf_distinct (by assumption) (by assumption)))
+  | (exact hsetAll_fields _ _ _ _ (hashOf_distinct (by assumption) (by assumption)))
+  | (exact hsetAll_fields _ _ _ _ List.nodup_nil)
+  | (exact hdelAll_fields _ _ _ (hashOf_distinct (by assumption) (by assumption)))
+  | (exact ainsert_keys_nodup _ _ _ (hashOf_distinct (by assumption) (by assumption)))
+  | (exact setAlgebra_nodup _ _ _ _ _ _ (by assumption) (by assumption))
+  | (simp only [Val.distinct, List.map_cons, List.map_nil, List.nodup_cons, List.not_mem_nil, not_false_eq_true, List.nodup_nil, and_self]; done)
+  | split
+  | dsimp only [R.ok, Val.distinct])))
+
+section
+variable (c : Ctx) (db : Db) (k k2 v f m : Bytes) (i j : Int) (o : SetOpts) (b b2 : Bool)
+  (ks : List Bytes) (kvs : List (Bytes × Bytes)) (oi oj ok' : Option Int) (n : Nat)
+  (h : db.Distinct)
+include h
+
+theorem set_distinct : (cmdSet c db k v o b).db.Distinct := by unfold cmdSet; keepd
+theorem get_distinct : (cmdGet c db k).db.Distinct := by unfold cmdGet; keepd
+theorem getdel_distinct : (cmdGetDel c db k).db.Distinct := by unfold cmdGetDel; keepd
+theorem getex_distinct (e : Option ExpArg) : (cmdGetEx c db k e).db.Distinct := by unfold cmdGetEx; keepd
+theorem strlen_distinct : (cmdStrlen c db k).db.Distinct := by unfold cmdStrlen; keepd
+theorem getrange_distinct : (cmdGetRange c db k i j).db.Distinct := by unfold cmdGetRange; keepd
+theorem setrange_distinct : (cmdSetRange c db k i v).db.Distinct := by unfold cmdSetRange; keepd
+theorem incrby_distinct : (cmdIncrBy c db k i).db.Distinct := by unfold cmdIncrBy; keepd
+theorem mget_distinct : (cmdMGet c db ks).db.Distinct := by unfold cmdMGet; keepd
+theorem mset_distinct : (cmdMSet c db kvs b).db.Distinct := by unfold cmdMSet; keepd
+theorem incrbyfloat_distinct : (cmdIncrByFloat c db k v).db.Distinct := by unfold cmdIncrByFloat; keepd
+theorem push_distinct : (cmdPush c db k ks b b2).db.Distinct := by unfold cmdPush; keepd
+theorem llen_distinct : (cmdLLen c db k).db.Distinct := by unfold cmdLLen; keepd
+theorem lindex_distinct : (cmdLIndex c db k i).db.Distinct := by unfold cmdLIndex; keepd
+theorem lrange_distinct : (cmdLRange c db k i j).db.Distinct := by unfold cmdLRange; keepd
+theorem lset_distinct : (cmdLSet c db k i v).db.Distinct := by unfold cmdLSet; keepd
+theorem linsert_distinct : (cmdLInsert c db k b v m).db.Distinct := by unfold cmdLInsert; keepd
+theorem lrem_distinct : (cmdLRem c db k i v).db.Distinct := by unfold cmdLRem; keepd
+theorem ltrim_distinct : (cmdLTrim c db k i j).db.Distinct := by unfold cmdLTrim; keepd
+theorem lpos_distinct : (cmdLPos c db k v oi oj ok').db.Distinct := by unfold cmdLPos; keepd
+theorem hset_distinct : (cmdHSet c db k kvs b b2).db.Distinct := by unfold cmdHSet; keepd
+theorem hget_distinct : (cmdHGet c db k f).db.Distinct := by unfold cmdHGet; keepd
+theorem hmget_distinct : (cmdHMGet c db k ks).db.Distinct := by unfold cmdHMGet; keepd
+theorem hgetall_distinct : (cmdHGetAll c db k).db.Distinct := by unfold cmdHGetAll; keepd
+theorem hkeys_distinct : (cmdHKeys c db k b).db.Distinct := by unfold cmdHKeys; keepd
+theorem hlen_distinct : (cmdHLen c db k).db.Distinct := by unfold cmdHLen; keepd
+theorem hexists_distinct : (cmdHExists c db k f).db.Distinct := by unfold cmdHExists; keepd
+theorem hstrlen_distinct : (cmdHStrlen c db k f).db.Distinct := by unfold cmdHStrlen; keepd
+theorem hdel_distinct : (cmdHDel c db k ks).db.Distinct := by unfold cmdHDel; keepd
+theorem hincrby_distinct : (cmdHIncrBy c db k f i).db.Distinct := by unfold cmdHIncrBy; keepd
+theorem hincrbyfloat_distinct : (cmdHIncrByFloat c db k f v).db.Distinct := by unfold cmdHIncrByFloat; keepd
+theorem sadd_distinct : (cmdSAdd c db k ks).db.Distinct := by unfold cmdSAdd; keepd
+theorem srem_distinct : (cmdSRem c db k ks).db.Distinct := by unfold cmdSRem; keepd
+theorem scard_distinct : (cmdSCard c db k).db.Distinct := by unfold cmdSCard; keepd
+theorem sismember_distinct : (cmdSIsMember c db k m).db.Distinct := by unfold cmdSIsMember; keepd
+theorem smismember_distinct : (cmdSMIsMember c db k ks).db.Distinct := by unfold cmdSMIsMember; keepd
+theorem smembers_distinct : (cmdSMembers c db k).db.Distinct := by unfold cmdSMembers; keepd
+theorem smove_distinct : (cmdSMove c db k k2 m).db.Distinct := by unfold cmdSMove; keepd
+theorem setalgebra_distinct (op : SetOp) : (cmdSetAlgebra c db op ks).db.Distinct := by unfold cmdSetAlgebra; keepd
+theorem setalgebrastore_distinct (op : SetOp) : (cmdSetAlgebraStore c db op k ks).db.Distinct := by unfold cmdSetAlgebraStore; keepd
+theorem sintercard_distinct : (cmdSInterCard c db i ks j).db.Distinct := by unfold cmdSInterCard; keepd
+theorem exists_distinct : (cmdExists c db ks).db.Distinct := by unfold cmdExists; keepd
+theorem type_distinct : (cmdType c db k).db.Distinct := by unfold cmdType; keepd
+theorem rename_distinct : (cmdRename c db k k2 b).db.Distinct := by unfold cmdRename; keepd
+theorem copy_distinct : (cmdCopy c db k k2 b).db.Distinct := by unfold cmdCopy; keepd
+theorem expireat_distinct (opt : ExpireOpt) : (cmdExpireAt c db k i opt).db.Distinct := by unfold cmdExpireAt; keepd
+theorem persist_distinct : (cmdPersist c db k).db.Distinct := by unfold cmdPersist; keepd
+theorem ttl_distinct (kind : TtlKind) : (cmdTtl c db k kind).db.Distinct := by unfold cmdTtl; keepd
+theorem getbit_distinct : (cmdGetBit c db k i).db.Distinct := by unfold cmdGetBit; keepd
+theorem bitpos_distinct (st : Option Int) (en : Option (Int × Bool)) : (cmdBitPos c db k i st en).db.Distinct := by unfold cmdBitPos; keepd
+theorem bitop_distinct : (cmdBitOp c db k k2 ks).db.Distinct := by unfold cmdBitOp; keepd
+theorem bitfieldParsed_distinct (ps : List BfParsed) : (cmdBitfieldParsed c db k ps).db.Distinct := by unfold cmdBitfieldParsed; keepd
+
+theorem append_distinct : (cmdAppend c db k v).db.Distinct := by
+  unfold cmdAppend
+  have hk := setKey_distinct c db k v { get := true } true (!c.q.appendDropsTtl) h
+  split
+  rename_i heq
+  rw [heq] at hk
+  split
+  · exact h
+  · exact hk
+theorem decrby_distinct : (cmdDecrBy c db k i).db.Distinct := by
+  unfold cmdDecrBy
+  split
+  · exact h
+  · exact incrby_distinct c db k _ h
+theorem pop_distinct : (cmdPop c db k oi b).db.Distinct := by
+  have go : ∀ n multi, (cmdPop.go c db k b n multi).db.Distinct := by
+    intro n multi
+    unfold cmdPop.go
+    keepd
+  unfold cmdPop
+  split
+  · split
+    · exact h
+    · exact go _ _
+  · exact go _ _
+theorem del_distinct : (cmdDel c db ks b).db.Distinct := by
+  unfold cmdDel
+  have key : ∀ (ks : List Bytes) (acc : Db × Nat), acc.1.Distinct →
+      (ks.foldl (fun (acc : Db × Nat) (k : Bytes) =>
+        match acc with
+        | (db, n) =>
+          match db.live c.now k with
+          | some e =>
+            if (b || !c.q.unlinkKeepsObject) = true then (db.del k, n + 1)
+            else (db.poke k { val := e.val, exp := some 0, id := e.id }, n + 1)
+          | none => if b = true then (db.del k, n) else (db, n)) acc).1.Distinct := by
+    intro ks
+    induction ks with
+    | nil => intro acc h; exact h
+    | cons x r ih =>
+      intro acc hacc
+      simp only [List.foldl_cons]
+      apply ih
+      obtain ⟨d, n⟩ := acc
+      dsimp only
+      split
+      · rename_i e hl
+        split
+        · exact distinct_del _ _ hacc
+        · exact distinct_poke _ _ _ hacc (live_distinct (e := e) hacc hl)
+      · split
+        · exact distinct_del _ _ hacc
+        · exact hacc
+  exact key ks (db, 0) h
+theorem bitfield_distinct (ops : List BfOp) : (cmdBitfield c db k ops).db.Distinct := by
+  unfold cmdBitfield
+  split
+  · exact h
+  · exact bitfieldParsed_distinct c db k h _
+theorem setbit_distinct : (cmdSetBit c db k i j).db.Distinct := by
+  unfold cmdSetBit
+  split
+  · exact h
+  · split
+    · exact h
+    · have hb := bitfieldParsed_distinct c db k h [{ kind := .set, signed := false, width := 1, off := i, value := j, ov := .wrap }]
+      dsimp only
+      split <;> exact hb
+theorem bitcount_distinct (r : Option (Int × Int × Bool)) : (cmdBitCount c db k r).db.Distinct := by
+  unfold cmdBitCount
+  split
+  · exact h
+  · split_ifs <;> first
+      | exact h
+      | (extract_lets; split_ifs <;> exact h)
+  · exact h
+theorem lmove_distinct : (cmdLMove c db k k2 b b2).db.Distinct := by unfold cmdLMove; keepd
+theorem lmpop_distinct : (cmdLMPop c db ks b n).db.Distinct := by
+  have go : ∀ ks, (cmdLMPop.go c db b n ks).db.Distinct := by
+    intro ks
+    induction ks with
+    | nil => exact h
+    | cons x r ih =>
+      unfold cmdLMPop.go
+      split
+      · exact h
+      · exact ih
+      · split
+        · exact ih
+        · dsimp only [R.ok]; exact distinct_upd _ _ _ _ _ h trivial
+  unfold cmdLMPop
+  exact go ks
+theorem bpop_distinct : (runCmd.go c b db ks).db.Distinct := by
+  induction ks with
+  | nil => exact h
+  | cons x r ih =>
+    unfold runCmd.go
+    split
+    · exact h
+    · exact ih
+    · split
+      · exact ih
+      · dsimp only [R.ok]; exact distinct_upd _ _ _ _ _ h trivial
+theorem sortFinish_distinct (store : Option Bytes) (out : List Value) (hint : Match) :
+    (sortFinish db store out hint).db.Distinct := by
+  unfold sortFinish
+  keepd
+theorem sort_distinct (by_ : Option Bytes) (limit : Option (Int × Int)) (gets : List Bytes) (store : Option Bytes) :
+    (cmdSort c db k by_ limit gets b b2 store).db.Distinct := by
+  unfold cmdSort
+  split
+  · exact h
+  · exact sortFinish_distinct db h _ _ _
+  · split
+    · exact h
+    · exact sortFinish_distinct db h _ _ _
+end
+
+/-- every database of the server holds duplicate-free sets and hashes -/
+def State.DInv (s : State) : Prop := ∀ r, (s.getDb r).Distinct
+
+theorem dinv_init : ({} : State).DInv := fun r => by
+  have : ({} : State).getDb r = {} := by simp [State.getDb]
+  rw [this]; exact distinct_init
+
+theorem dinv_of_getDb_eq (s s' : State) (hs : s.DInv) (h : ∀ r, s'.getDb r = s.getDb r) : s'.DInv := by
+  intro r; rw [h r]; exact hs r
+
+theorem onDb_dinv (s : State) (ref : Nat) (f : Db → R) (hs : s.DInv) (h : (f (s.getDb ref)).db.Distinct) :
+    (onDb s ref f).st.DInv := by
+  intro r
+  unfold onDb
+  by_cases e : (ref == r) = true
+  · have : ref = r := by simpa using e
+    subst this
+    simp only [getDb_setDb_self]
+    exact h
+  · simp only [getDb_setDb_ne _ _ _ _ (by simpa using e)]
+    exact hs r
+
+theorem distinct_flushed (n : Nat) : ({ keys := [], nextId := n, dirty := false } : Db).Distinct := ⟨by simp⟩
+
+/-- **A set never holds a member twice, a hash never a field twice** — after any command, with any
+    arguments, in every database of the server. -/
+theorem runCmd_distinct (c : Ctx) (s : State) (conn ref : Nat) (m : Bool) (cmd : Cmd)
+    (hs : s.DInv) : (runCmd c s conn ref m cmd).st.DInv := by
+  cases cmd
+  case copy a b rep dbOpt =>
+    simp only [runCmd]
+    split
+    · exact hs
+    · exact onDb_dinv s ref _ hs (copy_distinct (h := hs ref) ..)
+  case lmpop nk ks l cnt =>
+    simp only [runCmd]
+    split
+    · exact hs
+    · split
+      · exact hs
+      · exact onDb_dinv s ref _ hs (lmpop_distinct (h := hs ref) ..)
+  case set a0 a1 a2 a3 => simp only [runCmd]; exact onDb_dinv s ref _ hs (set_distinct (h := hs ref) ..)
+  case append a0 a1 => simp only [runCmd]; exact onDb_dinv s ref _ hs (append_distinct (h := hs ref) ..)
+  case get a0 => simp only [runCmd]; exact onDb_dinv s ref _ hs (get_distinct (h := hs ref) ..)
+  case getdel a0 => simp only [runCmd]; exact onDb_dinv s ref _ hs (getdel_distinct (h := hs ref) ..)
+  case getex a0 a1 => simp only [runCmd]; exact onDb_dinv s ref _ hs (getex_distinct (h := hs ref) ..)
+  case strlen a0 => simp only [runCmd]; exact onDb_dinv s ref _ hs (strlen_distinct (h := hs ref) ..)
+  case getrange a0 a1 a2 => simp only [runCmd]; exact onDb_dinv s ref _ hs (getrange_distinct (h := hs ref) ..)
+  case setrange a0 a1 a2 => simp only [runCmd]; exact onDb_dinv s ref _ hs (setrange_distinct (h := hs ref) ..)
+  case incrby a0 a1 => simp only [runCmd]; exact onDb_dinv s ref _ hs (incrby_distinct (h := hs ref) ..)
+  case decrby a0 a1 => simp only [runCmd]; exact onDb_dinv s ref _ hs (decrby_distinct (h := hs ref) ..)
+  case incrbyfloat a0 a1 => simp only [runCmd]; exact onDb_dinv s ref _ hs (incrbyfloat_distinct (h := hs ref) ..)
+  case mget a0 => simp only [runCmd]; exact onDb_dinv s ref _ hs (mget_distinct (h := hs ref) ..)
+  case mset a0 a1 => simp only [runCmd]; exact onDb_dinv s ref _ hs (mset_distinct (h := hs ref) ..)
+  case push a0 a1 a2 a3 => simp only [runCmd]; exact onDb_dinv s ref _ hs (push_distinct (h := hs ref) ..)
+  case pop a0 a1 a2 => simp only [runCmd]; exact onDb_dinv s ref _ hs (pop_distinct (h := hs ref) ..)
+  case llen a0 => simp only [runCmd]; exact onDb_dinv s ref _ hs (llen_distinct (h := hs ref) ..)
+  case lindex a0 a1 => simp only [runCmd]; exact onDb_dinv s ref _ hs (lindex_distinct (h := hs ref) ..)
+  case lrange a0 a1 a2 => simp only [runCmd]; exact onDb_dinv s ref _ hs (lrange_distinct (h := hs ref) ..)
+  case lset a0 a1 a2 => simp only [runCmd]; exact onDb_dinv s ref _ hs (lset_distinct (h := hs ref) ..)
+  case linsert a0 a1 a2 a3 => simp only [runCmd]; exact onDb_dinv s ref _ hs (linsert_distinct (h := hs ref) ..)
+  case lrem a0 a1 a2 => simp only [runCmd]; exact onDb_dinv s ref _ hs (lrem_distinct (h := hs ref) ..)
+  case ltrim a0 a1 a2 => simp only [runCmd]; exact onDb_dinv s ref _ hs (ltrim_distinct (h := hs ref) ..)
+  case lpos a0 a1 a2 a3 a4 => simp only [runCmd]; exact onDb_dinv s ref _ hs (lpos_distinct (h := hs ref) ..)
+  case lmove a0 a1 a2 a3 => simp only [runCmd]; exact onDb_dinv s ref _ hs (lmove_distinct (h := hs ref) ..)
+  case hset a0 a1 a2 a3 => simp only [runCmd]; exact onDb_dinv s ref _ hs (hset_distinct (h := hs ref) ..)
+  case hget a0 a1 => simp only [runCmd]; exact onDb_dinv s ref _ hs (hget_distinct (h := hs ref) ..)
+  case hmget a0 a1 => simp only [runCmd]; exact onDb_dinv s ref _ hs (hmget_distinct (h := hs ref) ..)
+  case hgetall a0 => simp only [runCmd]; exact onDb_dinv s ref _ hs (hgetall_distinct (h := hs ref) ..)
+  case hkeys a0 a1 => simp only [runCmd]; exact onDb_dinv s ref _ hs (hkeys_distinct (h := hs ref) ..)
+  case hlen a0 => simp only [runCmd]; exact onDb_dinv s ref _ hs (hlen_distinct (h := hs ref) ..)
+  case hexists a0 a1 => simp only [runCmd]; exact onDb_dinv s ref _ hs (hexists_distinct (h := hs ref) ..)
+  case hstrlen a0 a1 => simp only [runCmd]; exact onDb_dinv s ref _ hs (hstrlen_distinct (h := hs ref) ..)
+  case hdel a0 a1 => simp only [runCmd]; exact onDb_dinv s ref _ hs (hdel_distinct (h := hs ref) ..)
+  case hincrby a0 a1 a2 => simp only [runCmd]; exact onDb_dinv s ref _ hs (hincrby_distinct (h := hs ref) ..)
+  case hincrbyfloat a0 a1 a2 => simp only [runCmd]; exact onDb_dinv s ref _ hs (hincrbyfloat_distinct (h := hs ref) ..)
+  case sadd a0 a1 => simp only [runCmd]; exact onDb_dinv s ref _ hs (sadd_distinct (h := hs ref) ..)
+  case srem a0 a1 => simp only [runCmd]; exact onDb_dinv s ref _ hs (srem_distinct (h := hs ref) ..)
+  case scard a0 => simp only [runCmd]; exact onDb_dinv s ref _ hs (scard_distinct (h := hs ref) ..)
+  case sismember a0 a1 => simp only [runCmd]; exact onDb_dinv s ref _ hs (sismember_distinct (h := hs ref) ..)
+  case smismember a0 a1 => simp only [runCmd]; exact onDb_dinv s ref _ hs (smismember_distinct (h := hs ref) ..)
+  case smembers a0 => simp only [runCmd]; exact onDb_dinv s ref _ hs (smembers_distinct (h := hs ref) ..)
+  case smove a0 a1 a2 => simp only [runCmd]; exact onDb_dinv s ref _ hs (smove_distinct (h := hs ref) ..)
+  case salg a0 a1 => simp only [runCmd]; exact onDb_dinv s ref _ hs (setalgebra_distinct (h := hs ref) ..)
+  case salgStore a0 a1 a2 => simp only [runCmd]; exact onDb_dinv s ref _ hs (setalgebrastore_distinct (h := hs ref) ..)
+  case sintercard a0 a1 a2 => simp only [runCmd]; exact onDb_dinv s ref _ hs (sintercard_distinct (h := hs ref) ..)
+  case del a0 a1 => simp only [runCmd]; exact onDb_dinv s ref _ hs (del_distinct (h := hs ref) ..)
+  case exists_ a0 => simp only [runCmd]; exact onDb_dinv s ref _ hs (exists_distinct (h := hs ref) ..)
+  case touch a0 => simp only [runCmd]; exact onDb_dinv s ref _ hs (exists_distinct (h := hs ref) ..)
+  case type_ a0 => simp only [runCmd]; exact onDb_dinv s ref _ hs (type_distinct (h := hs ref) ..)
+  case rename a0 a1 a2 => simp only [runCmd]; exact onDb_dinv s ref _ hs (rename_distinct (h := hs ref) ..)
+  case sort a0 a1 a2 a3 a4 a5 a6 => simp only [runCmd]; exact onDb_dinv s ref _ hs (sort_distinct (h := hs ref) ..)
+  case persist a0 => simp only [runCmd]; exact onDb_dinv s ref _ hs (persist_distinct (h := hs ref) ..)
+  case ttl a0 a1 => simp only [runCmd]; exact onDb_dinv s ref _ hs (ttl_distinct (h := hs ref) ..)
+  case getbit a0 a1 => simp only [runCmd]; exact onDb_dinv s ref _ hs (getbit_distinct (h := hs ref) ..)
+  case setbit a0 a1 a2 => simp only [runCmd]; exact onDb_dinv s ref _ hs (setbit_distinct (h := hs ref) ..)
+  case bitcount a0 a1 => simp only [runCmd]; exact onDb_dinv s ref _ hs (bitcount_distinct (h := hs ref) ..)
+  case bitpos a0 a1 a2 a3 => simp only [runCmd]; exact onDb_dinv s ref _ hs (bitpos_distinct (h := hs ref) ..)
+  case bitop a0 a1 a2 => simp only [runCmd]; exact onDb_dinv s ref _ hs (bitop_distinct (h := hs ref) ..)
+  case bitfield a0 a1 a2 => simp only [runCmd]; exact onDb_dinv s ref _ hs (bitfield_distinct (h := hs ref) ..)
+  case expire k n u a o => simp only [runCmd]; exact onDb_dinv s ref _ hs (expireat_distinct (h := hs ref) ..)
+  case bpop ks l => simp only [runCmd]; exact onDb_dinv s ref _ hs (bpop_distinct (h := hs ref) ..)
+  case select i =>
+    simp only [runCmd]
+    split
+    · exact hs
+    · apply dinv_of_getDb_eq s _ hs
+      intro r
+      simp only [getDb_setSession]
+      exact getDb_tableRef s _ r
+  case flushdb =>
+    simp only [runCmd]
+    split
+    · apply dinv_of_getDb_eq s _ hs
+      intro r
+      simp only [getDb_setSession]
+      rw [getDb_tableRef]
+      rfl
+    · intro r
+      by_cases e : ((s.tableRef (s.session conn).dbIdx).2 == r) = true
+      · have : (s.tableRef (s.session conn).dbIdx).2 = r := by simpa using e
+        subst this
+        simp only [getDb_setDb_self]
+        exact distinct_flushed _
+      · simp only [getDb_setDb_ne _ _ _ _ (by simpa using e)]
+        rw [getDb_tableRef]
+        exact hs r
+  case flushall =>
+    simp only [runCmd]
+    split
+    · apply dinv_of_getDb_eq s _ hs
+      intro r
+      simp only [getDb_setSession]
+      rw [getDb_tableRef]
+      rfl
+    · intro r
+      rw [getDb_flush_heap]
+      exact distinct_flushed _
+  case watch ks =>
+    simp only [runCmd]
+    split
+    · exact hs
+    · exact dinv_of_getDb_eq s _ hs (fun r => getDb_setSession _ _ _ r)
+  case unwatch => exact dinv_of_getDb_eq s _ hs (fun r => getDb_setSession _ _ _ r)
+  case hello v =>
+    simp only [runCmd]
+    split
+    · split
+      · exact hs
+      · exact dinv_of_getDb_eq s _ hs (fun r => getDb_setSession _ _ _ r)
+    · exact hs
+  case clientSetname nm =>
+    simp only [runCmd]
+    split
+    · exact hs
+    · exact dinv_of_getDb_eq s _ hs (fun r => getDb_setSession _ _ _ r)
+  case ping o => cases o <;> exact hs
+  case dbsize => simp only [runCmd]; split <;> exact hs
+  all_goals
+    simp only [runCmd]
+    first
+      | exact hs
+      | (apply onDb_dinv s ref _ hs; have h := hs ref; keepd)
+
+theorem runEvents_distinct (evs : List Ev) : ∀ (s : State), s.DInv → (runEvents s evs).DInv := by
+  induction evs with
+  | nil => intro s hs; exact hs
+  | cons e r ih => intro s hs; exact ih _ (runCmd_distinct e.c s e.conn e.ref e.inMulti e.cmd hs)
+
+/-- in every reachable state SCARD is the number of different members: the stored set of a live key
+    has no repeated member (so SADD / SREM / SISMEMBER / the set algebra see a mathematical set) -/
+theorem reachable_sets_are_sets (evs : List Ev) (r : Nat) (k : Bytes) (e : Entry) (now : Int) (members : List Bytes)
+    (h : ((runEvents {} evs).getDb r).live now k = some e) (hv : e.val = .set members) : members.Nodup := by
+  have := live_distinct (runEvents_distinct evs {} dinv_init r) h
+  rw [hv] at this
+  exact this
 
 end RedisEmu
